@@ -22,7 +22,7 @@
 (* bounds, either geodesic when two are shortest), not the code's control flow. *)
 (* TLC checks the laws of C06 / C07 on the model itself for every enumerated    *)
 (* case and prints each case with its expected outcome (one JSON line per       *)
-(* transition root -> case) for replay on the real spaces.                      *)
+(* transition from-state -> case) for replay on the real spaces.                *)
 EXTENDS Integers, Sequences, FiniteSets, TLC, Json
 
 CONSTANTS SpaceId,  \* catalogue entry (string)
@@ -246,7 +246,7 @@ Nest == Comp("Compound",
                Comp("Compound", <<SO2(2), RV(1, 0, 1, 2, 1)>>, <<W(1, 4), W(4, 1)>>)>>,
              <<W(2, 1), W(1, 2), W(1, 1)>>)
 Hybrid == Comp("Compound", <<RV(1, -1, 1, 1, 1), Disc(0, 2), SO2(2)>>, <<W(1, 1), W(2, 1), W(1, 2)>>)
-Rot3 == Comp("Compound", <<SO3, SO2(2), Torus(2)>>, <<W(3, 2), W(1, 1), W(1, 4)>>)
+Rot3 == Comp("Compound", <<SO3, SO2(2), Torus(1)>>, <<W(3, 2), W(1, 1), W(1, 4)>>)
 
 Sp == CASE SpaceId = "rv1" -> RV(1, -2, 2, 1, 1)
         [] SpaceId = "rv2" -> IF Size = 1 THEN RV(2, -1, 1, 1, 2) ELSE RV(2, -2, 2, 1, 2)
@@ -289,7 +289,8 @@ Mods == CASE SpaceId \in {"se3"} -> IF Size = 1 THEN <<4, 12, 16>> ELSE <<1, 5, 
           [] SpaceId \in {"rot3"} -> IF Size = 1 THEN <<8, 24, 24>> ELSE <<1, 12, 6>>
           [] SpaceId \in {"se2", "wrap-se2"} -> IF Size = 1 THEN <<1, 2, 1>> ELSE <<1, 4, 2>>
           [] SpaceId \in {"torus"} -> IF Size = 1 THEN <<1, 1, 1>> ELSE <<1, 2, 2>>
-          [] SpaceId \in {"so3", "wrap-so3"} -> IF Size = 1 THEN <<1, 1, 1>> ELSE <<1, 1, 1>>
+          [] SpaceId \in {"hybrid"} -> IF Size = 1 THEN <<1, 3, 1>> ELSE <<1, 1, 1>>
+          [] SpaceId \in {"wrap-so3"} -> IF Size = 1 THEN <<2, 3, 3>> ELSE <<1, 1, 1>>
           [] OTHER -> <<1, 1, 1>>
 
 PairFrom == Thin(All, Mods[1])
@@ -298,15 +299,33 @@ IFrom == Thin(All, Mods[3])
 SVals == 0..8
 UVals == IF Size = 1 THEN {0, 3, 8} ELSE 0..8
 
-Cases06 == {[kind |-> "pair", a |-> a, b |-> b] : a \in PairFrom, b \in All}
-           \cup {[kind |-> "tri", a |-> a, b |-> b, c |-> c] : a \in TriSet, b \in TriSet, c \in TriSet}
-Cases07 == IF Exempt
-           THEN {[kind |-> "interp", a |-> a, b |-> b, i |-> i, j |-> 0] : a \in IFrom, b \in All, i \in SVals}
-           ELSE {[kind |-> "interp", a |-> a, b |-> b, i |-> i, j |-> j] : a \in IFrom, b \in All, i \in SVals, j \in UVals}
-Cases == IF Prop = 6 THEN Cases06 ELSE Cases07
+(* A case carries everything the laws and the export need, computed once when the case is    *)
+(* generated.  The state graph has two levels (root -> from-state a -> cases starting at a) *)
+(* so that TLC's workers share the enumeration.                                             *)
+PairCase(a, b) == [kind |-> "pair", a |-> a, b |-> b, d |-> Dist(Sp, a, b), r |-> Dist(Sp, b, a),
+                   lt |-> LeafTerms(Sp, a, b, <<1, 1>>), eq |-> Equal(Sp, a, b)]
+TriCase(a, b, c) == [kind |-> "tri", a |-> a, b |-> b, c |-> c,
+                     dab |-> Dist(Sp, a, b), dbc |-> Dist(Sp, b, c), dac |-> Dist(Sp, a, c)]
+InterpCase(a, b, i, j) ==
+    LET p1s == Interp(Sp, a, b, i, 8)
+    IN  [kind |-> "interp", a |-> a, b |-> b, i |-> i, j |-> j,
+         \* admissible (first interpolant, second interpolant) pairs; exempt spaces: first only
+         pq |-> IF Exempt THEN {<<p, p>> : p \in p1s}
+                ELSE UNION {{<<p, q>> : q \in Interp(Sp, p, b, j, 8)} : p \in p1s},
+         tt |-> IF Exempt THEN {} ELSE Interp(Sp, a, b, 8 * i + (8 - i) * j, 64),
+         d |-> Dist(Sp, a, b)]
+
+FromSet == IF Prop = 6 THEN PairFrom \cup TriSet ELSE IFrom
+CasesFrom(a) ==
+    IF Prop = 6
+    THEN (IF a \in PairFrom THEN {PairCase(a, b) : b \in All} ELSE {})
+         \cup (IF a \in TriSet THEN {TriCase(a, b, c) : b \in TriSet, c \in TriSet} ELSE {})
+    ELSE IF Exempt THEN {InterpCase(a, b, i, 0) : b \in All, i \in SVals}
+    ELSE {InterpCase(a, b, i, j) : b \in All, i \in SVals, j \in UVals}
 
 Init == cs = [kind |-> "root"]
-Next == cs.kind = "root" /\ cs' \in Cases
+Next == \/ cs.kind = "root" /\ cs' \in {[kind |-> "from", a |-> a] : a \in FromSet}
+        \/ cs.kind = "from" /\ cs' \in CasesFrom(cs.a)
 Spec == Init /\ [][Next]_cs
 
 (* ------------------------------ the laws, on the model itself ------------------------------ *)
@@ -317,33 +336,25 @@ WeightsPositive ==
                   [] OTHER -> TRUE
     IN  P(Sp)
 ASSUME WeightsPositive
+ExtSp == Ext(Sp)
 
 IsPair == cs.kind = "pair"
-NonNegative == IsPair => \A k \in 1..Len(Dist(Sp, cs.a, cs.b)) :
-                   LET t == Dist(Sp, cs.a, cs.b)[k] IN t.n >= 0 /\ t.c[1] > 0 /\ t.c[2] > 0
-Identity == IsPair => (Equal(Sp, cs.a, cs.b) => Zero(Dist(Sp, cs.a, cs.b)))
-Positivity == IsPair => (~Equal(Sp, cs.a, cs.b) => ~Zero(Dist(Sp, cs.a, cs.b)))
-Symmetry == IsPair => Dist(Sp, cs.a, cs.b) = Dist(Sp, cs.b, cs.a)
-ExtentBound == IsPair => LET d == Dist(Sp, cs.a, cs.b)
-                             e == Ext(Sp)
-                         IN  /\ Len(d) = Len(e)
-                             /\ \A k \in 1..Len(d) : d[k].c = e[k].c /\ d[k].f = e[k].f /\ d[k].n <= e[k].n
-CompoundIsWeightedSum == IsPair => Dist(Sp, cs.a, cs.b) = LeafTerms(Sp, cs.a, cs.b, <<1, 1>>)
+NonNegative == IsPair => \A k \in 1..Len(cs.d) : cs.d[k].n >= 0 /\ cs.d[k].c[1] > 0 /\ cs.d[k].c[2] > 0
+Identity == IsPair => (cs.eq => Zero(cs.d))
+Positivity == IsPair => (~cs.eq => ~Zero(cs.d))
+Symmetry == IsPair => cs.d = cs.r
+ExtentBound == IsPair => /\ Len(cs.d) = Len(ExtSp)
+                         /\ \A k \in 1..Len(cs.d) : /\ cs.d[k].c = ExtSp[k].c /\ cs.d[k].f = ExtSp[k].f
+                                                     /\ cs.d[k].n <= ExtSp[k].n
+CompoundIsWeightedSum == IsPair => cs.d = cs.lt
 Triangle == cs.kind = "tri" => TriOK(Sp, cs.a, cs.b, cs.c)
 
 IsInterp == cs.kind = "interp"
-P1s == Interp(Sp, cs.a, cs.b, cs.i, 8)
-Endpoints == IsInterp => /\ cs.i = 0 => \A p \in P1s : Equal(Sp, p, cs.a)
-                         /\ cs.i = 8 => \A p \in P1s : Equal(Sp, p, cs.b)
-StaysInBounds == IsInterp => \A p \in P1s : /\ InBounds(Sp, p)
-                                            /\ Exempt \/ \A q \in Interp(Sp, p, cs.b, cs.j, 8) : InBounds(Sp, q)
-Reparameterisation ==
-    (IsInterp /\ ~Exempt) =>
-        \A p \in P1s : \A q \in Interp(Sp, p, cs.b, cs.j, 8) :
-            q \in Interp(Sp, cs.a, cs.b, 8 * cs.i + (8 - cs.i) * cs.j, 64)
-Proportionality ==
-    (IsInterp /\ ~Exempt) =>
-        \A p \in P1s : ScaledBy(Dist(Sp, cs.a, p), Dist(Sp, cs.a, cs.b), cs.i)
+Endpoints == IsInterp => /\ cs.i = 0 => \A x \in cs.pq : Equal(Sp, x[1], cs.a)
+                         /\ cs.i = 8 => \A x \in cs.pq : Equal(Sp, x[1], cs.b)
+StaysInBounds == IsInterp => \A x \in cs.pq : InBounds(Sp, x[1]) /\ InBounds(Sp, x[2])
+Reparameterisation == (IsInterp /\ ~Exempt) => \A x \in cs.pq : x[2] \in cs.tt
+Proportionality == (IsInterp /\ ~Exempt) => \A x \in cs.pq : ScaledBy(Dist(Sp, cs.a, x[1]), cs.d, cs.i)
 
 (* ------------------------------ export (M3) ------------------------------ *)
 RECURSIVE JS(_, _)
@@ -370,25 +381,26 @@ LandsOnSeam(c) ==     \* an interpolant of an SO2 leaf is exactly -pi
                      [] S.k = "Comp" -> \E m \in 1..Len(S.sub) : L(S.sub[m], v[m])
                      [] S.k = "Wrap" -> L(S.of, v)
                      [] OTHER -> FALSE
-    IN  \E p \in Interp(Sp, c.a, c.b, c.i, 8) : L(Sp, p)
+    IN  \E x \in c.pq : L(Sp, x[1])
 
 Header == [k |-> "space", id |-> SpaceId, sp |-> Sp, ext |-> Ext(Sp), metric |-> TRUE, sym |-> TRUE,
            exempt |-> Exempt, states |-> Cardinality(All), prop |-> Prop]
 ASSUME PrintT(ToJson(Header))
 
 Out(c) ==
-    CASE c.kind = "pair" -> [k |-> "pair", a |-> JS(Sp, c.a), b |-> JS(Sp, c.b), d |-> Dist(Sp, c.a, c.b),
-                             eq |-> Equal(Sp, c.a, c.b), cls |-> Cls(Sp, c.a, c.b)]
+    CASE c.kind = "pair" -> [k |-> "pair", a |-> JS(Sp, c.a), b |-> JS(Sp, c.b), d |-> c.d,
+                             eq |-> c.eq, cls |-> Cls(Sp, c.a, c.b)]
       [] c.kind = "tri" -> [k |-> "tri", a |-> JS(Sp, c.a), b |-> JS(Sp, c.b), c |-> JS(Sp, c.c),
-                            dab |-> Dist(Sp, c.a, c.b), dbc |-> Dist(Sp, c.b, c.c), dac |-> Dist(Sp, c.a, c.c),
+                            dab |-> c.dab, dbc |-> c.dbc, dac |-> c.dac,
                             cls |-> Cls(Sp, c.a, c.b) \cup Cls(Sp, c.b, c.c) \cup Cls(Sp, c.a, c.c)]
       [] c.kind = "interp" ->
-            LET p == CHOOSE x \in Interp(Sp, c.a, c.b, c.i, 8) : TRUE
+            LET x == CHOOSE y \in c.pq : TRUE
             IN  [k |-> "interp", a |-> JS(Sp, c.a), b |-> JS(Sp, c.b), i |-> c.i, j |-> c.j,
                  exp |-> Exp07(Sp, c.a, c.b, c.i, c.j),
-                 d |-> Dist(Sp, c.a, c.b),
-                 dp |-> IF Exempt THEN <<>> ELSE Dist(Sp, c.a, p),
+                 d |-> c.d,
+                 dp |-> IF Exempt THEN <<>> ELSE Dist(Sp, c.a, x[1]),
                  cls |-> Cls(Sp, c.a, c.b) \cup TCls(c.i, c.j)
                          \cup (IF LandsOnSeam(c) THEN {"so2:lands-on-minus-pi"} ELSE {})]
-Dump == PrintT(ToJson(Out(cs')))
+      [] OTHER -> [k |-> "from"]
+Dump == cs'.kind = "from" \/ PrintT(ToJson(Out(cs')))
 ===============================================================================
